@@ -1,6 +1,6 @@
 (* Properties_C08.v — C08: powers and modular powers are exact.  Statements only. *)
 From Coq Require Import ZArith List Bool.
-From Mpir Require Import Word Limbs MpzDefs DivDefs GcdDefs PowDefs PowProofs PowmWDefs PowmWProofs.
+From Mpir Require Import Word Limbs MpzDefs DivDefs GcdDefs PowDefs PowProofs PowmWDefs PowmWProofs PowmEvenProofs.
 Import ListNotations.
 Local Open Scope Z_scope.
 
@@ -65,16 +65,31 @@ Theorem C08_mpn_powm_as_coded : forall bl el ml, wf bl -> wf el -> wf ml ->
 Proof. exact mpn_powm_c_spec. Qed.
 Print Assumptions C08_mpn_powm_as_coded.
 
-(* the wrapper for odd moduli: e = 0, negative exponents through the inverse (both outcomes), zero and negative bases, normalised result.
-   (Partial: the even-modulus path and |e| = 1 are modelled as coded and tied by execution, not covered by this theorem.) *)
-Theorem C08_mpz_powm_as_coded_odd_partial : forall b e m, mpz_wf b -> mpz_wf e -> mpz_wf m -> 64 * len (d e) < B ->
-  Z.odd (lat (d m) 0) = true -> Z.abs (value e) <> 1 ->
+(* the whole wrapper as coded equals the specification for EVERY base, exponent and modulus: m = 0 (trap), e = 0, e = 1 and e = -1 (the
+   shortcut that subtracts without dividing, normalised after the repair 3b23d14), negative exponents through the inverse (both
+   outcomes), zero and negative bases, odd moduli, and even moduli (low zero limbs stripped, the shift with its top-limb check, the
+   powlo shortcuts, binvert / mullow / mask / mul / add = the CRT recombination); the size hypotheses hold for every mpz the
+   library can represent (sizes are C ints) *)
+Theorem C08_mpz_powm_as_coded : forall b e m, mpz_wf b -> mpz_wf e -> mpz_wf m -> 64 * len (d e) < B -> 64 * len (d m) < B ->
   match mpz_powm (value b) (value e) (value m) with
   | Ok v => exists z, mpz_powm_c b e m = Ok z /\ value z = v /\ mpz_wf z
   | DivByZero => mpz_powm_c b e m = DivByZero
   end.
-Proof. exact mpz_powm_c_odd_spec. Qed.
-Print Assumptions C08_mpz_powm_as_coded_odd_partial.
+Proof. exact mpz_powm_c_spec. Qed.
+Print Assumptions C08_mpz_powm_as_coded.
+
+Theorem C08_powm_e1_as_coded : forall b m, mpz_wf b -> mpz_wf m -> sz m <> 0 ->
+  exists z, powm_e1 b m = Ok z /\ value z = value b mod Z.abs (value m) /\ mpz_wf z.
+Proof. exact powm_e1_spec. Qed.
+Print Assumptions C08_powm_e1_as_coded.
+
+(* the recombination for an even modulus modd * 2^t, as coded, is the Chinese remainder value *)
+Theorem C08_even_recombination_as_coded : forall X modd r2 n nodd k cnt, 0 < modd -> Z.odd modd = true -> 1 <= k -> 0 <= cnt <= 63 ->
+  let t := (k - b2z (negb (cnt =? 0))) * 64 + cnt in
+  modd * 2 ^ t <= B ^ n -> modd < B ^ nodd -> 0 <= nodd -> r2 mod 2 ^ t = X mod 2 ^ t ->
+  recomb (X mod modd) r2 modd n nodd k cnt = X mod (modd * 2 ^ t).
+Proof. exact recomb_spec. Qed.
+Print Assumptions C08_even_recombination_as_coded.
 
 Example C08_nonvacuous :
   mpz_powm 2 5 (3 * 2 ^ 64) = Ok 32 /\ mpz_powm 3 (-1) 7 = Ok 5 /\ mpz_powm (-2) 3 5 = Ok 2
